@@ -1,4 +1,5 @@
 import Bnum.Drive.C01
+import Bnum.Drive.C02
 import Bnum.Drive.C03
 import Bnum.Drive.C06
 import Bnum.Drive.C07
@@ -6,7 +7,7 @@ import Bnum.Drive.C09
 import Bnum.Drive.C13
 namespace Bnum.Drive.All
 open Bnum.Drive
-def handlers : List Handler := [C01.handle, C03.handle, C06.handle, C07.handle]
+def handlers : List Handler := [C01.handle, C02.handle, C03.handle, C06.handle, C07.handle]
 /-- handlers that parse the raw token list themselves (the second token is not a configuration) -/
 def rawHandlers : List (String → List String → Option (String × String)) := [C09.handleRaw, C13.handleRaw]
 end Bnum.Drive.All
